@@ -299,8 +299,18 @@ func runC17(c *Ctx) {
 		case string:
 			it = gal.App("UStr", bstr(v))
 		}
+		if expect != nil && got != nil && (*got-*expect == 1 || *expect-*got == 1) && (*expect > 1<<43 || *expect < -(1<<43)) {
+			// the conversion goes through float64: above 2^43 the truncated exact product can be missed by one (known finding)
+			c.Violate("unit-float-rounding", fmt.Sprintf("size %q resolved to %d, the exact product truncated is %d", in, *got, *expect), map[string]interface{}{"input": in})
+			c.Count("unit-float-rounding")
+			return // not a case for the model, which computes exactly
+		}
 		if expect != nil && (got == nil || *got != *expect) {
-			c.Violate("unit-wrong", fmt.Sprintf("size %q resolved to %v, expected %d", in, got, *expect), map[string]interface{}{"input": in})
+			g := "a panic"
+			if got != nil {
+				g = fmt.Sprint(*got)
+			}
+			c.Violate("unit-wrong", fmt.Sprintf("size %q resolved to %s, expected %d", in, g, *expect), map[string]interface{}{"input": in})
 		}
 		c.Eval("u:"+fmt.Sprint(in), true)
 		c.Count("unit")
@@ -354,6 +364,10 @@ func runC17(c *Ctx) {
 				doUnit(strconv.FormatInt(n, 10), &e)
 			}
 		}
+	}
+	{ // the witness of the known finding runs every time
+		e := int64(19839242174096)
+		doUnit("18476.7341 Gb", &e)
 	}
 	for _, s := range []string{"", "k", "kb", " kb", "12xb", "12b", "1.2.3kb", "abc", "12 k b", "1,5", "1..5mb", ".mb", "5.mb", ".5mb", "+3kb", "--3kb", "3 tb", "12KB ", " 12kb", "0kb", "007mb", "1,0gb"} {
 		doUnit(s, nil)
